@@ -25,7 +25,7 @@ from .state import (
     PduHeader,
     tag_data_type,
 )
-from .utils import IE_ID_16BIT, check_param, FixedOffset
+from .utils import IE_ID_8BIT, IE_ID_16BIT, check_param, FixedOffset
 
 
 NULL = b'\x00'
@@ -523,21 +523,27 @@ class SubmitSm(Trackable, SmppMessage):
             ind: int = 0
             if esm_class & 0b01000000 and raw_message:
                 # UDHI flag set, decode UDH (it is in message_payload when short_message is empty)
-                udh_len: int
-                ie_id: int
-                udh_len, ie_id = unpack_from('!BB', raw_message, 0)
-                if ie_id == IE_ID_16BIT:
-                    ref_num = unpack_from('!H', raw_message, 3)[0]
-                    ind = 5
-                else:
-                    ref_num = unpack_from('!B', raw_message, 3)[0]
-                    ind = 4
-                total = unpack_from('!B', raw_message, ind)[0]
-                seq_num = unpack_from('!B', raw_message, ind + 1)[0]
+                # UDH is a sequence of information elements (id, length, data) in any order.
+                # Look for the concatenation element; others (e.g. port addressing) are skipped
+                udh_len: int = unpack_from('!B', raw_message, 0)[0]
+                is_segment: bool = False
+                ind = 1
+                while ind < udh_len + 1:
+                    ie_id: int
+                    ie_len: int
+                    ie_id, ie_len = unpack_from('!BB', raw_message, ind)
+                    if ie_id == IE_ID_16BIT and ie_len == 4:
+                        ref_num, total, seq_num = unpack_from('!HBB', raw_message, ind + 2)
+                        is_segment = True
+                    elif ie_id == IE_ID_8BIT and ie_len == 3:
+                        ref_num, total, seq_num = unpack_from('!BBB', raw_message, ind + 2)
+                        is_segment = True
+                    ind += 2 + ie_len
                 ind = udh_len + 1
-                optional_params.append(OptionalParam(SAR_MSG_REF_NUM, ref_num))
-                optional_params.append(OptionalParam(SAR_SEGMENT_SEQNUM, seq_num))
-                optional_params.append(OptionalParam(SAR_TOTAL_SEGMENTS, total))
+                if is_segment:
+                    optional_params.append(OptionalParam(SAR_MSG_REF_NUM, ref_num))
+                    optional_params.append(OptionalParam(SAR_SEGMENT_SEQNUM, seq_num))
+                    optional_params.append(OptionalParam(SAR_TOTAL_SEGMENTS, total))
             return codec_info.decode(raw_message[ind:])[0]
 
         optional_params: List[OptionalParam] = []
